@@ -62,7 +62,7 @@ func (f WriterFunc) Write(p []byte) (int, error) { return f(p) }
 type WrappedBase64Encoder struct {
 	enc     io.WriteCloser
 	dst     io.Writer
-	written int
+	written int // columns in the current line: kept below ColumnsPerLine, a running total would overflow a 32-bit int after 2 GiB of output
 	buf     bytes.Buffer
 }
 
@@ -82,7 +82,7 @@ func (w *WrappedBase64Encoder) writeWrapped(p []byte) (int, error) {
 			toWrite = len(p)
 		}
 		n, _ := w.buf.Write(p[:toWrite])
-		w.written += n
+		w.written = (w.written + n) % ColumnsPerLine
 		p = p[n:]
 		if w.written%ColumnsPerLine == 0 {
 			w.buf.Write([]byte("\n"))
